@@ -1,29 +1,14 @@
-"""Per-property configuration of the check engine."""
-PROPS = {
-    "C06": {
-        "lean_modules": ["SaphyrVerif.Props.C06", "SaphyrVerif.Props.C06_Tables"],
-        "harness": [("c06", "gen")],
-        "decisive": ["c06 "],
-        "spec_ops": {"c06 int_s ": "c06 spec_int_s ", "c06 int_u ": "c06 spec_int_u "},
-        "modelled": "parse_scalars.rs (integers all widths, YAML 1.1/strict booleans, null-likes, leading_zero_decimal), base64.rs",
-        "not_modelled": "core::str::parse::<f32/f64> (external; contract: correctly rounded)",
-        "assumptions": ["Rust `str::trim` = Unicode White_Space set written out in Basic/Text.lean (exercised by the whitespace-wrapped tokens)"],
-    },
-    "C07": {
-        "lean_modules": ["SaphyrVerif.Props.C07", "SaphyrVerif.Props.C07_Tables"],
-        "harness": [("c07", "gen"), ("pump", "gen")],
-        "decisive": ["c07 run"],
-        "modelled": "budget.rs BudgetEnforcer (observe, finalize, begin_document, container-state stack), per-document policy; live_events.rs budget integration incl. replayed events (pump model)",
-        "not_modelled": "check_yaml_budget convenience wrapper; usize overflow of += 1 counters (needs 2^64 events)",
-        "assumptions": ["parser contract: events are the flattening of document trees (theorems about trees); first_breach_kind holds for arbitrary event lists",
-                        "physical bound: fewer than 2^64 events (makes the saturating depth increment exact)"],
-    },
-    "C02": {
-        "lean_modules": ["SaphyrVerif.Props.C02"],
-        "harness": [("pump", "gen")],
-        "decisive": [],
-        "modelled": "live_events.rs LiveEvents::next_impl (recording frames, finalisation, inject stack, alias limits, document reset, look-ahead, reference_location, stop_at_doc_end), tag classification table",
-        "not_modelled": "name->id resolution of anchors (saphyr-parser; contract: fresh id per definition, alias id = most recent definition of that name); the scanner",
-        "assumptions": ["parser contract: items of a document are the flattening of a located tree; ids are fresh per anchor definition"],
-    },
-}
+"""Per-property configuration of the check engine: one JSON file per property in tools/props.d/
+(`config` = lean_modules, harness [[area, mode]…], decisive op prefixes, spec_ops, …; `claim` = the text
+that goes to MANIFEST.json). Adding a property = adding a file; nothing else to edit."""
+import glob, json, os
+
+PROPS = {}
+CLAIMS = {}
+for _f in sorted(glob.glob(os.path.join(os.path.dirname(os.path.abspath(__file__)), "props.d", "C*.json"))):
+    _d = json.load(open(_f))
+    _k = os.path.basename(_f)[:-5]
+    _c = _d["config"]
+    _c["harness"] = [tuple(x) for x in _c.get("harness", [])]
+    PROPS[_k] = _c
+    CLAIMS[_k] = _d["claim"]
